@@ -11,7 +11,8 @@ package main
 //   c12-check  one job per line {"id","pkg","jsonschema":text,"openapi":text,"object":"Root",
 //              "docs":[<json>...]}: what independent loaders and cog's own parsers say about the
 //              emitted documents, and kin-openapi's verdict on every encoded document:
-//                js_own      cog's JSON Schema parser (jsonschema.GenerateAST) on the emitted file
+//                js_own      cog's JSON Schema parser (jsonschema.GenerateAST) on the emitted file; `ir` = the
+//                            re-parsed schema (round trip: emitted document -> cog's parser -> IR)
 //                oa_load     openapi3 loader, configured like cog's own OpenAPI input
 //                oa_validate openapi3.T.Validate
 //                oa_own      cog's OpenAPI parser (openapi.GenerateAST, Validate on)
@@ -132,6 +133,7 @@ type c12Verdict struct {
 	OK      bool     `json:"ok"`
 	Err     string   `json:"err,omitempty"`
 	Objects []string `json:"objects,omitempty"`
+	IR      []any    `json:"ir,omitempty"` // the re-parsed schema, projected like c12-ir (round trip)
 }
 
 type c12DocVerdict struct {
@@ -185,6 +187,7 @@ func c12CheckOne(job c12CheckJob) (res c12CheckResult) {
 			s, err := verifapi.JSONSchemaGenerateAST(strings.NewReader(job.JSONSchema), verifapi.JSONSchemaParserConfig{Package: job.Pkg})
 			if err == nil {
 				res.JSOwn.Objects = objectNames(s)
+				res.JSOwn.IR = projSchemas(verifapi.Schemas{s})
 			}
 			return err
 		})
@@ -212,6 +215,7 @@ func c12CheckOne(job c12CheckJob) (res c12CheckResult) {
 		s, err := verifapi.OpenAPIGenerateAST(context.Background(), doc, verifapi.OpenAPIParserConfig{Package: job.Pkg, Validate: true})
 		if err == nil {
 			res.OAOwn.Objects = objectNames(s)
+			res.OAOwn.IR = projSchemas(verifapi.Schemas{s})
 		}
 		return err
 	})
